@@ -125,6 +125,10 @@ func c12Syms() []c12Sym {
 			{"element-assignment-rhs", "", "let ar: []i32 = [1, 2, 3];\n    ar[0] = " + n + ";"},
 			{"compound-assignment-rhs", "", "let acc: i32 = 0;\n    acc += " + n + ";"},
 			{"catch-fallback", "fn mayFail(k: i32) -> str ! i32 {\n    if k == 0 {\n        return \"zero\"!;\n    }\n    return k;\n}\n", "let a := mayFail(0) catch " + n + ";"},
+			{"catch-handler-body", "fn mayFail(k: i32) -> str ! i32 {\n    if k == 0 {\n        return \"zero\"!;\n    }\n    return k;\n}\n", "let a := mayFail(0) catch e {\n        takeI(" + n + ");\n    } 0;"},
+			{"catch-fallback-after-handler", "fn mayFail(k: i32) -> str ! i32 {\n    if k == 0 {\n        return \"zero\"!;\n    }\n    return k;\n}\n", "let a := mayFail(0) catch e {\n        takeI(1);\n    } " + n + ";"},
+			{"catch-fallback-after-handler-in-expr", "fn mayFail(k: i32) -> str ! i32 {\n    if k == 0 {\n        return \"zero\"!;\n    }\n    return k;\n}\n", "let a := mayFail(0) catch e {\n        takeI(1);\n    } " + n + " + 1;"},
+			{"else-if-condition", "", "if flag {\n        takeI(1);\n    } else if " + n + " > 0 {\n        takeI(2);\n    }"},
 			{"while-condition", "", "let wv: i32 = 0;\n    while wv < " + n + " {\n        wv = wv + 100;\n    }"},
 			{"closure-body", "", "let cf := fn() -> i32 {\n        return " + n + ";\n    };"},
 		}
